@@ -156,6 +156,38 @@ def convex_qp(rng, n, m, var_kinds=None, row_kinds=None, fmt="coo", quad_rows=Fa
     return prob, x0, {"var_kinds": var_kinds, "row_kinds": row_kinds, "feasible_point": xf}
 
 
+def degenerate_problem(rng, kind):
+    """Degenerate but well-posed instances: all variables fixed / free rows / duplicate (rank-deficient) rows / empty
+    Jacobian rows / huge magnitudes / pure feasibility problem / start exactly at the solution."""
+    n = int(rng.integers(1, 4))
+    kind = kind % 7
+    Z = np.zeros
+    if kind == 0:
+        xl = rng.uniform(-1, 1, size=n)
+        return GenProblem(random_spd(rng, n), rng.standard_normal(n), Z((0, n)), Z((0, n)), Z(0), Z(0), Z(0), xl, xl.copy()), xl.copy(), {}
+    if kind == 1:
+        A = rng.standard_normal((2, n))
+        return GenProblem(random_spd(rng, n), rng.standard_normal(n), A, Z((2, n)), Z(2), np.full(2, -INF), np.full(2, INF),
+                          np.full(n, -INF), np.full(n, INF)), rng.standard_normal(n), {}
+    if kind == 2:
+        a = rng.standard_normal(n)
+        return GenProblem(random_spd(rng, n), rng.standard_normal(n), np.vstack([a, a, 2 * a]), Z((3, n)), Z(3), Z(3), Z(3),
+                          np.full(n, -1.0), np.full(n, 1.0)), Z(n), {}
+    if kind == 3:
+        return GenProblem(random_spd(rng, n), rng.standard_normal(n), Z((2, n)), Z((2, n)), Z(2), np.array([-1.0, 0.0]),
+                          np.array([1.0, 0.0]), np.full(n, -1.0), np.full(n, 1.0)), Z(n), {}
+    if kind == 4:
+        s = float(10.0 ** rng.integers(4, 9))
+        return GenProblem(random_spd(rng, n) * s, rng.standard_normal(n) * s, np.ones((1, n)) * s, Z((1, n)), Z(1), np.array([0.0]),
+                          np.array([s]), np.full(n, -1.0), np.full(n, 1.0)), Z(n), {}
+    if kind == 5:
+        return GenProblem(Z((n, n)), Z(n), rng.standard_normal((1, n)), Z((1, n)), Z(1), np.array([0.5]), np.array([0.5]),
+                          np.full(n, -2.0), np.full(n, 2.0)), Z(n), {}
+    Q = random_spd(rng, n)
+    xs = rng.uniform(-0.5, 0.5, size=n)
+    return GenProblem(Q, -Q @ xs, Z((0, n)), Z((0, n)), Z(0), Z(0), Z(0), np.full(n, -1.0), np.full(n, 1.0)), xs.copy(), {}
+
+
 def saddle_problem(rng, n, lamb):
     """Box-constrained quadratic with curvature exactly -lamb in one direction: with lamb_init = lamb the first Newton
     matrix (H + lamb I) is exactly singular, so a direct linear solver must report failure and the step be retried."""
